@@ -87,7 +87,7 @@ def sequential_outcomes(model, start, calls, tolerate_in_progress=True):
     return outs
 
 
-def execute(contents, cfg, start, calls, chooser, mp_mode=False, on_event=None):
+def execute(contents, cfg, start, calls, chooser, mp_mode=False, on_event=None, tmp_write_points=False):
     """one controlled execution on the real store + replay of its schedule on the model"""
     trio = seq.Trio(contents, **cfg)
     try:
@@ -96,6 +96,7 @@ def execute(contents, cfg, start, calls, chooser, mp_mode=False, on_event=None):
         for c in calls:
             trio.prepare(c)
         s = sched.Sched(trio.real, calls, mp_mode=mp_mode)
+        s.tmp_write_points = tmp_write_points
         if on_event is not None:
             s.on_event = lambda kind, rel, _root=trio.real.root: on_event(kind, rel, _root)
         try:
@@ -103,6 +104,8 @@ def execute(contents, cfg, start, calls, chooser, mp_mode=False, on_event=None):
         finally:
             s.cleanup()
         results = list(s.results)
+        if on_event is not None:
+            on_event("end", "", trio.real.root)        # the directory when every call has returned
         tree = abstraction.read_tree(trio.real.root)
         rabs = abstraction.abs_lines(tree, trio.known, contents)
         exact = abstraction.exactness(tree, trio.known)
